@@ -2,6 +2,7 @@
 // go-rangers sources whose behaviour is nondeterministic in plain Go:
 //   - `range` over a map            -> range over simmap.Keys(m, site) (seeded order)
 //   - sync.Map.Range                -> simmap.SyncMapRange(&m, site, f)
+//
 // Output files are consumed through `go build -overlay`; /repo is never written.
 //
 // usage: verifinstr -repo /repo -modfile W/go.mod -out W/instr [-pkgs pattern,...]
@@ -249,9 +250,41 @@ func main() {
 						n.Body.List = append([]ast.Stmt{y}, n.Body.List...)
 						nyield++
 						changed, usedSched = true, true
+					case *ast.DeferStmt:
+						// defer wg.Done()  ->  defer zzsimsched.WGDone(&wg)
+						if sel, ok := n.Call.Fun.(*ast.SelectorExpr); ok && sel.Sel.Name == "Done" && len(n.Call.Args) == 0 {
+							if recv := waitGroupRecv(p.TypesInfo, sel.X); recv != nil {
+								n.Call.Fun = &ast.SelectorExpr{X: ast.NewIdent("zzsimsched"), Sel: ast.NewIdent("WGDone")}
+								n.Call.Args = []ast.Expr{recv}
+								nlock++
+								changed, usedSched = true, true
+							}
+						}
 					case *ast.ExprStmt:
 						call, ok := n.X.(*ast.CallExpr)
-						if !ok || len(call.Args) != 0 {
+						if !ok {
+							return true
+						}
+						if sel, ok := call.Fun.(*ast.SelectorExpr); ok && (sel.Sel.Name == "Done" || sel.Sel.Name == "Wait" || sel.Sel.Name == "Add") {
+							if recv := waitGroupRecv(p.TypesInfo, sel.X); recv != nil {
+								site := fmt.Sprintf("%s:%d", rel, p.Fset.Position(n.Pos()).Line)
+								switch {
+								case sel.Sel.Name == "Add" && len(call.Args) == 1:
+									call.Args = []ast.Expr{recv, call.Args[0]}
+								case sel.Sel.Name == "Done" && len(call.Args) == 0:
+									call.Args = []ast.Expr{recv}
+								case sel.Sel.Name == "Wait" && len(call.Args) == 0:
+									call.Args = []ast.Expr{recv, &ast.BasicLit{Kind: token.STRING, Value: fmt.Sprintf("%q", site)}}
+								default:
+									return true
+								}
+								call.Fun = &ast.SelectorExpr{X: ast.NewIdent("zzsimsched"), Sel: ast.NewIdent("WG" + sel.Sel.Name)}
+								nlock++
+								changed, usedSched = true, true
+								return true
+							}
+						}
+						if len(call.Args) != 0 {
 							return true
 						}
 						sel, ok := call.Fun.(*ast.SelectorExpr)
@@ -283,6 +316,11 @@ func main() {
 						call.Args = []ast.Expr{recv, &ast.BasicLit{Kind: token.STRING, Value: fmt.Sprintf("%q", site)}}
 						nlock++
 						changed, usedSched = true, true
+					}
+					return true
+				}, func(c *astutil.Cursor) bool {
+					// go statements are rewritten on the way up, after their bodies have been instrumented
+					switch n := c.Node().(type) {
 					case *ast.GoStmt:
 						// go f(a, b)  ->  zzsimsched.Go(site, func() { f(a, b) }) with the arguments evaluated now
 						site := fmt.Sprintf("%s:%d", rel, p.Fset.Position(n.Pos()).Line)
@@ -305,10 +343,9 @@ func main() {
 						c.Replace(&ast.BlockStmt{List: append(pre, goCall)})
 						ngo++
 						changed, usedSched = true, true
-						return false
 					}
 					return true
-				}, nil)
+				})
 			}
 			if !changed {
 				continue
@@ -334,6 +371,27 @@ func main() {
 		}
 	}
 	fmt.Printf("instrumented: %d map ranges, %d sync.Map ranges, %d function-entry yields, %d statement yields, %d lock sites, %d go statements in %d files (%d skipped)\n", nmap, nsync, nyield, nstmt, nlock, ngo, nfiles, nskip)
+}
+
+// waitGroupRecv returns the expression for a *sync.WaitGroup receiver (nil if x is not a wait group).
+func waitGroupRecv(info *types.Info, x ast.Expr) ast.Expr {
+	tv, ok := info.Types[x]
+	if !ok {
+		return nil
+	}
+	t := tv.Type
+	ptr := false
+	if pt, ok := t.(*types.Pointer); ok {
+		t, ptr = pt.Elem(), true
+	}
+	named, ok := t.(*types.Named)
+	if !ok || named.Obj().Pkg() == nil || named.Obj().Pkg().Path() != "sync" || named.Obj().Name() != "WaitGroup" {
+		return nil
+	}
+	if ptr {
+		return x
+	}
+	return &ast.UnaryExpr{Op: token.AND, X: x}
 }
 
 func recvName(e ast.Expr) string {
